@@ -43,6 +43,7 @@ namespace = z3.Function('namespace', NS, OPT_STR.sort())
 is_xml_flag = z3.Function('is_xml_flag', NS, z3.BoolSort())
 descendants = z3.Function('descendants', NS, SEQ_NODE.sort())
 next_element = z3.Function('next_element', NS, NS)
+dindex = z3.Function('dindex', NS, NS, z3.IntSort())      # position of a node in descendants(e); len(descendants(e)) when it is not among them
 
 # attributes: the normalised view (key string, AttrVal) in dict order; raw values only matter to normalize_value
 ATTRVAL = TUnion('AttrVal', {'AStr': STR, 'AList': TSeq(STR)},
@@ -131,7 +132,7 @@ def install(world):
     SELLIST.truthy = lambda term: z3.Length(SELLIST.get(term, 'selectors')) > 0
     SELLANG.truthy = lambda term: z3.Length(SELLANG.get(term, 'languages')) > 0
     world.tree = sys.modules[__name__]
-    world.watch_decls = set(getattr(world, 'watch_decls', ())) | {'ascii_lower'}
+    world.watch_decls = set(getattr(world, 'watch_decls', ())) | {'ascii_lower', 'dindex'}
     bs4 = world.module('bs4')
 
     # ---- symbolic side of the tree primitives (spec/vocab_tree.py)
@@ -157,6 +158,34 @@ def install(world):
     def p_sel_is_null(eng, args, st, node):
         return V(BOOL, sel_is_null(eng.coerce(args[0], SEL, node).term))
     world.add_prim('sel_is_null', p_sel_is_null, VI.sel_is_null)
+
+    def p_dsize(eng, args, st, node):
+        return V(INT, z3.Length(descendants(node_arg(eng, args[0], node))))
+    world.add_prim('dsize', p_dsize, VT.dsize)
+
+    def p_dindex(eng, args, st, node):
+        return V(INT, dindex(node_arg(eng, args[0], node), node_arg(eng, args[1], node)))
+    world.add_prim('dindex', p_dindex, VT.dindex)
+
+    def p_descendants(eng, args, st, node):
+        return V(SEQ_NODE, descendants(node_arg(eng, args[0], node)))
+    world.add_prim('descendants', p_descendants, VT.descendants)
+
+    def p_next_element(eng, args, st, node):
+        return V(NODE, next_element(node_arg(eng, args[0], node)))
+    world.add_prim('next_element', p_next_element, VT.next_element)
+
+    def _ls_pid():
+        import soupsieve.util as su
+        return world.rx.pid(su.RE_PATTERN_LINE_SPLIT)[0]
+
+    def p_ls_starts(eng, args, st, node):
+        return V(TSeq(INT), world.rx.starts(z3.IntVal(_ls_pid()), eng.coerce(args[0], STR, node).term))
+    world.add_prim('ls_starts', p_ls_starts, VT.ls_starts)
+
+    def p_ls_end(eng, args, st, node):
+        return V(INT, world.rx.end(z3.IntVal(_ls_pid()), eng.coerce(args[0], STR, node).term, eng.coerce(args[1], INT, node).term))
+    world.add_prim('ls_end', p_ls_end, VT.ls_end)
 
     def p_bidi_class(eng, args, st, node):
         return V(STR, bidi_class(eng.coerce(args[0], STR, node).term))
@@ -457,7 +486,31 @@ def install(world):
                 ax.append(z3.Implies(z3.And(i >= 0, i < z3.Length(seq)),
                                      z3.And(parent(nt) == p, idx(nt) == i, nt != NONE)))
             elif z3.is_app(seq) and seq.decl().eq(descendants):
-                ax.append(z3.Implies(z3.And(i >= 0, i < z3.Length(seq)), nt != NONE))
+                # A-bs4-preorder: e.descendants is the pre-order flattening of e's subtree (validated natively on every corpus node)
+                e = seq.arg(0)
+                c = nt
+                n = z3.Length(seq)
+                size = z3.Length(descendants(c))
+                after = i + 1 + size
+                g = z3.And(i >= 0, i < n)
+                ax.append(z3.Implies(g, z3.And(
+                    c != NONE,
+                    after <= n,                                                   # the subtree of c lies inside e's
+                    z3.Implies(z3.Not(is_tag(c)), size == 0),                      # strings have no descendants
+                    dindex(e, c) == i,                                            # positions identify nodes (no node occurs twice)
+                    z3.Implies(next_sibling_term(c) != NONE,                      # the next sibling follows c's subtree immediately
+                               z3.And(after < n, seq[after] == next_sibling_term(c))))))
+                ld = world_.specs.get('last_desc')
+                if ld is not None:
+                    ne = next_element(ld.declare()(c))
+                    ax.append(z3.Implies(g, z3.And(
+                        z3.Implies(ne == NONE, after == n),                       # nothing follows in the whole document
+                        z3.Implies(ne != NONE, dindex(e, ne) == after))))         # what follows the subtree of c (possibly outside e's)
+        for t in lowers.values():
+            if t.decl().name() == 'dindex':
+                e, x = t.arg(0), t.arg(1)
+                n = z3.Length(descendants(e))
+                ax.append(z3.And(t >= 0, t <= n, z3.Implies(t < n, descendants(e)[t] == x)))
         return ax
     world.axiom_rules.append(axioms)
 
